@@ -49,7 +49,7 @@ theorem gen_gsap_parse_empty (grow : Nat → Nat → Nat) (fuel : Nat) (lcp : Sl
     unfold Slice.slice
     simp [Slice.cap]
   unfold blockNG at h
-  unfold gsap_Parse
+  unfold gsap_Parse gsap_Parse_nilable; simp only [Bool.false_eq_true]
   by_cases hgt : (Int.ofNat s.ParserBuffer.Data.len) - s.ParserBuffer.W > s.GSAPConfig.BlockSize
   · have hB : s.GSAPConfig.BlockSize = 0 := by simpa only [hgt, if_true] using h
     have hge : (Int.ofNat s.ParserBuffer.Data.len) - s.ParserBuffer.W ≥ s.GSAPConfig.BlockSize := by omega
@@ -270,7 +270,7 @@ theorem gen_gsap_parse_ex (grow : Nat → Nat → Nat) (fuel : Nat) (lcp : Slice
           ((Wn + nN : Nat) : Int) - (Wn : Int), Gen.Err.ok) = R) →
       gsap_Parse grow fuel lcp SS BI s blk flags = R := by
     intro R h1 h2 h3
-    unfold gsap_Parse
+    unfold gsap_Parse gsap_Parse_nilable; simp only [Bool.false_eq_true]
     simp only [if_false]
     simp only [hnG, hnG']
     rw [hs0, bind_ok]
